@@ -175,6 +175,97 @@ def run(ck: Check):
                 if not (abs(float(out[t][3][1]) - g[t]) <= 0.2) or bool(out[t][0]) != (g[t] > cfg["lambda_"]):
                     ck.violation(dict(clause="recurrence", detector=det.name, regime="glitch"), dict(what="after one huge value the statistic no longer follows g_t = alpha g_{t-1} + (1-alpha)(x_t - m_t)", detector=det.name, config=cfg, stream="999 zeros, 1e17, then values 0.75 above the running mean", tail=xs[-4:], step=t + 1, got=float(out[t][3][1]), expected=g[t], drift=bool(out[t][0])))
                     break
+    # (iii) a detector constructed WITHOUT a configuration uses the documented defaults, whatever was done through the
+    #       setters of the configuration of another instance of the class (deterministic)
+    import frouros.detectors.concept_drift as _cd
+
+    for det in DETS:
+        cls, cfgcls = getattr(_cd, det.name), getattr(_cd, det.name + "Config")
+        try:
+            dflt = cfgcls()
+            cfg = {k: getattr(dflt, k) for k in ("delta", "lambda_", "alpha", "min_num_instances") if hasattr(dflt, k)}
+            tuned = cls()
+            tuned.config.lambda_ = 0.05
+            tuned.config.min_num_instances = 1
+            for x in (0.0, 1.0, 0.0, 1.0):
+                tuned.update(value=x)
+            d = cls()
+            xs = [0.0] * 40 + [1.0] * 40
+            got = []
+            for x in xs:
+                d.update(value=x)
+                got.append((bool(d.drift), float(d.sum_)))
+        except Exception as e:  # noqa: BLE001
+            ck.violation(dict(clause="raises", detector=det.name, scenario="default-config-isolation"), dict(detector=det.name, error=repr(e)))
+            continue
+        g = spec(det, cfg, xs)
+        ck.case(dict(detector=det.name, config=cfg, kind="default-config-after-another-instance-was-tuned"), nontrivial=True, key=repr(("dflt-iso", det.name)))
+        ck.count("default_config_isolation_cases")
+        for t, ((dr, gs), gt) in enumerate(zip(got, g)):
+            exp = (t + 1 >= cfg["min_num_instances"]) and gt > cfg["lambda_"]
+            if abs(gt - cfg["lambda_"]) <= 1e-7:
+                continue
+            if dr != exp or not (abs(gs - gt) <= 1e-9 * max(1.0, abs(gt))):
+                ck.violation(dict(clause="verdict", detector=det.name, scenario="default-config-isolation"),
+                             dict(what="a detector constructed with the default configuration does not follow the rule with the default lambda_ / min_num_instances once ANOTHER default-configured instance had its configuration changed through the setters",
+                                  detector=det.name, defaults=cfg, stream="40 zeros then 40 ones", step=t + 1, drift=dr, expected_drift=exp, statistic=gs, expected_statistic=gt, config_now=dict(lambda_=d.config.lambda_, min_num_instances=d.config.min_num_instances)))
+                break
+    # (iv) min_num_instances handed over as a NumPy integer scalar (unsigned ones included): the warm-up clause t >= min_num_instances
+    #      is about its value. (v) finite streams of huge magnitude whose SUM leaves the binary64 range while every value, every
+    #      running mean and every statistic stays finite (reference on the stream scaled by 2^-12, which is exact)
+    import numpy as _np
+
+    for det in DETS:
+        for dt in (_np.uint8, _np.uint32, _np.uint64, _np.int16):
+            cfg = det.gen_cfg(prng)
+            cfg.update(min_num_instances=12, lambda_=0.3)
+            if "delta" in cfg:
+                cfg["delta"] = 0.005
+            if "alpha" in cfg:
+                cfg["alpha"] = 0.9
+            xs = [0.0, 1.0] * 3 + [1.0] * 14
+            try:
+                d = det.make(dict(cfg, min_num_instances=dt(12)))
+                got = []
+                for x in xs:
+                    d.update(value=x)
+                    got.append((bool(d.drift), float(d.sum_)))
+            except Exception as e:  # noqa: BLE001
+                ck.violation(dict(clause="raises", detector=det.name, scenario="typed-min-num-instances", dtype=dt.__name__), dict(detector=det.name, config=cfg, dtype=dt.__name__, error=repr(e)))
+                continue
+            g = spec(det, cfg, xs)
+            ck.case(dict(detector=det.name, config=cfg, kind="min_num_instances-as-" + dt.__name__), nontrivial=True, key=repr(("typed-min", det.name, dt.__name__)))
+            ck.count("typed_min_num_instances_cases")
+            for t, ((dr, gs), gt) in enumerate(zip(got, g)):
+                exp = (t + 1 >= 12) and gt > cfg["lambda_"]
+                if abs(gt - cfg["lambda_"]) > 1e-7 and dr != exp:
+                    ck.violation(dict(clause="verdict", detector=det.name, scenario="typed-min-num-instances", dtype=dt.__name__),
+                                 dict(what="with min_num_instances given as a NumPy integer scalar the verdict is not (t >= min_num_instances and statistic > lambda_)", detector=det.name, config=cfg, dtype=dt.__name__, stream=xs[: t + 1], step=t + 1, drift=dr, expected=exp, statistic=gs))
+                    break
+        for k in range(2):
+            cfg = det.gen_cfg(prng)
+            base = 3e307 if k == 0 else -2.5e307
+            xs = [base + j * 1e304 for j in (0, 1, -1, 2, 0, 1, 30, 31, 29, 33)]
+            cfg.update(min_num_instances=3, lambda_=2e305)
+            if "delta" in cfg:
+                cfg["delta"] = 0.005
+            if "alpha" in cfg:
+                cfg["alpha"] = 0.9
+            out, exc, _ = run_impl(det, cfg, xs)
+            if exc is not None:
+                ck.violation(dict(clause="raises", detector=det.name, regime="huge-magnitude"), dict(detector=det.name, config=cfg, stream=xs[: len(out) + 1], error=repr(exc)))
+                continue
+            sc = 2.0 ** -12
+            gsc = spec(det, dict(cfg, delta=cfg.get("delta", 0.0) * sc), [x * sc for x in xs])
+            ck.case(dict(detector=det.name, config=cfg, kind="huge-magnitude", base=base), nontrivial=True, key=repr(("huge", det.name, k)))
+            ck.count("huge_magnitude_streams")
+            for t, (o, gt) in enumerate(zip(out, gsc)):
+                gt = gt / sc
+                exp = (t + 1 >= 3) and gt > cfg["lambda_"]
+                if not (abs(float(o[3][1]) - gt) <= 1e-6 * max(1e300, abs(gt))) or (abs(gt - cfg["lambda_"]) > 1e300 and bool(o[0]) != exp):
+                    ck.violation(dict(clause="recurrence", detector=det.name, regime="huge-magnitude"),
+                                 dict(what="on a finite stream of huge magnitude (its sum exceeds the binary64 range, its values, running means and statistics do not) the statistic / verdict leaves the recurrence", detector=det.name, config=cfg, stream=xs[: t + 1], step=t + 1, got=float(o[3][1]), expected=gt, drift=bool(o[0]), expected_drift=exp))
+                    break
     models = run_models("C07", cases)
     from detectors import corr_compare
 
